@@ -789,6 +789,9 @@ func (r *Reader) Close() error {
 //
 // If more fine-grained control of when offsets are committed is required, it
 // is recommended to use FetchMessage with CommitMessages instead.
+//
+// When the message was fetched but committing its offset failed, the message
+// is returned together with the error.
 func (r *Reader) ReadMessage(ctx context.Context) (Message, error) {
 	m, err := r.FetchMessage(ctx)
 	if err != nil {
@@ -797,7 +800,10 @@ func (r *Reader) ReadMessage(ctx context.Context) (Message, error) {
 
 	if r.useConsumerGroup() {
 		if err := r.CommitMessages(ctx, m); err != nil {
-			return Message{}, fmt.Errorf("committing message: %w", err)
+			// The message has been fetched and its commit may have reached
+			// the coordinator (or will, merged in a later commit): it is
+			// returned along with the error, dropping it here would lose it.
+			return m, fmt.Errorf("committing message: %w", err)
 		}
 	}
 
